@@ -3,6 +3,8 @@ package rules
 import (
 	"fmt"
 	"go/types"
+	"os"
+	"time"
 
 	"cachelint/pw"
 )
@@ -208,7 +210,11 @@ func (c *Ctx) runFunc(name string, pol pw.Policy) (*pw.Engine, []*pw.Path, *type
 		pol.Pure = basePure
 	}
 	e := pw.New(c.Pkg, pol)
+	t0 := time.Now()
 	paths, err := e.Run(fn)
+	if os.Getenv("CACHELINT_TIMING") != "" {
+		fmt.Fprintf(os.Stderr, "timing %s: %d paths %.2fs\n", name, len(paths), time.Since(t0).Seconds())
+	}
 	if err != nil {
 		return e, paths, fn, err
 	}
